@@ -671,7 +671,7 @@ func (vc *VC) evalComposite(st *State, x *ast.CompositeLit) Term {
 		case *types.Array:
 			elemT = ut.Elem()
 		}
-		arr := fmt.Sprintf("((as const (Array Int %s)) %s)", s.Elem.Name, vc.U.zero(s.Elem))
+		arr := vc.U.zeroArray(s.Elem)
 		idx := 0
 		for _, el := range x.Elts {
 			var ve ast.Expr = el
